@@ -62,6 +62,14 @@ def _job(args):
     return n, fails
 
 
+def _pmap(fn, items):
+    # measured on the loaded box: a fork pool is SLOWER than a plain loop for these sub-millisecond replays
+    # until there are some 10^5 of them (14 500 programs: 8 s serial, 17-67 s with 2-8 processes)
+    if len(items) < 60000:
+        return [fn(x) for x in items]
+    return core.parallel_map(fn, items, procs=8, chunk=2000)
+
+
 def run(tier: str) -> int:
     ck = core.Check("C42", tier)
     ck.rule = ("tree programs (roots scheduled through the CatchScheduler, children through the scheduler handed to the "
@@ -115,7 +123,7 @@ def run(tier: str) -> int:
     if not all(vac.values()):
         raise RuntimeError(f"vacuous model run: {vac}")
     n_impl = 0
-    for n, fails in core.parallel_map(_job, [(g[0], g[1], tier) for g in groups], procs=8, chunk=100):
+    for n, fails in _pmap(_job, [(g[0], g[1], tier) for g in groups]):
         n_impl += n
         for f in fails:
             ck.fail(f)
